@@ -5,14 +5,14 @@
 (* state machine, the outcome by the property.                                                      *)
 EXTENDS P402, Json, IOUtils
 ZInit(t) == [drv |-> "SWITCH ON DISABLED", prev |-> 0, target |-> "none", ncw |-> 0, start |-> "none",
-             pend |-> "none"]      \* pend: commanded transition of a slow drive that has not taken effect yet
+             pend |-> "none", lastign |-> FALSE]      \* lastign: the drive refused the latest fault reset (cause persists); pend: commanded transition of a slow drive that has not taken effect yet
 ZShow(st) == st
 Bad(st, why) == [ok |-> FALSE, why |-> why, st |-> st]
 Good(st) == [ok |-> TRUE, why |-> "", st |-> st]
 MayEnable(tg) == tg \in {"OPERATION ENABLED", "QUICK STOP ACTIVE"}
 ZStep(st, e, t) ==
     CASE e.e = "init" -> Good([st EXCEPT !.drv = e.state, !.prev = 0])
-      [] e.e = "target" -> Good([st EXCEPT !.target = e.name, !.ncw = 0, !.start = st.drv])
+      [] e.e = "target" -> Good([st EXCEPT !.target = e.name, !.ncw = 0, !.start = st.drv, !.lastign = FALSE])
       [] e.e = "sw" -> IF Reports(e.val, st.drv) THEN Good(st)
                        ELSE Bad(st, "HARNESS: drive simulator reported a statusword that does not match its state")
       [] e.e = "auto" -> IF HasAuto(st.drv) THEN Good([st EXCEPT !.drv = AutoNext(st.drv)])
@@ -22,18 +22,19 @@ ZStep(st, e, t) ==
            IF st.pend = "none" \/ e.to # st.pend THEN Bad(st, "HARNESS: slow drive completed a transition that was not pending")
            ELSE Good([st EXCEPT !.drv = st.pend, !.pend = "none"])
       [] e.e = "cw" ->
-           LET d2 == DriveStep(st.drv, e.val, st.prev) IN
+           \* (ign: the drive simulator did not act on a fault reset because the cause of the fault persists)
+           LET d2 == IF e.ign THEN st.drv ELSE DriveStep(st.drv, e.val, st.prev) IN
            IF e.lag
              THEN \* slow drive: the reaction becomes visible some statusword reads later ("lagged")
                   IF e.after # st.drv THEN Bad(st, "HARNESS: slow drive changed state at once")
                   ELSE IF d2 = "OPERATION ENABLED" /\ st.drv # "OPERATION ENABLED" /\ ~MayEnable(st.target)
                     THEN Bad(st, "operation was enabled although the target is neither OPERATION ENABLED nor QUICK STOP ACTIVE")
-                  ELSE Good([st EXCEPT !.prev = e.val, !.ncw = st.ncw + 1,
+                  ELSE Good([st EXCEPT !.prev = e.val, !.ncw = st.ncw + 1, !.lastign = e.ign,
                                        !.pend = IF d2 # st.drv THEN d2 ELSE "none"])
            ELSE IF d2 # e.after THEN Bad(st, "HARNESS: drive simulator reaction differs from the CiA 402 state machine")
            ELSE IF d2 = "OPERATION ENABLED" /\ st.drv # "OPERATION ENABLED" /\ ~MayEnable(st.target)
              THEN Bad(st, "operation was enabled although the target is neither OPERATION ENABLED nor QUICK STOP ACTIVE")
-           ELSE Good([st EXCEPT !.drv = d2, !.prev = e.val, !.ncw = st.ncw + 1])
+           ELSE Good([st EXCEPT !.drv = d2, !.prev = e.val, !.ncw = st.ncw + 1, !.lastign = e.ign])
       [] e.e = "ret" ->
            IF st.target \in Commandable
              THEN IF st.drv = st.target THEN Good(st)
@@ -45,7 +46,7 @@ ZStep(st, e, t) ==
            Bad(st, "the state assignment did not finish in finitely many steps")
       [] e.e = "raise" ->
            IF st.target \in Commandable
-             THEN IF e.cls = "RuntimeError" /\ HasAuto(st.drv) THEN Good(st)   \* drive too slow: legitimate time-out
+             THEN IF e.cls = "RuntimeError" /\ (HasAuto(st.drv) \/ st.lastign \/ st.pend # "none") THEN Good(st)   \* drive too slow / still refusing the reset: legitimate time-out
                   ELSE Bad(st, "assigning a commandable target state failed (" \o e.cls \o ")")
              ELSE IF st.ncw # 0 THEN Bad(st, "controlword written although the target cannot be commanded")
                   ELSE IF e.cls # "ValueError" THEN Bad(st, "non-commandable target not refused with ValueError")
